@@ -620,11 +620,6 @@ func (a *Act) callByContract(st *State, callee *ssa.Function, fc *FuncContract, 
 			}
 		}
 	}
-	defer func() {
-		for _, l := range links {
-			a.linkPureValue(st, l.fv, l.fn)
-		}
-	}()
 	pre := st.clone()
 	penv := a.fnEnv(callee, args, env, pre, pre, nil)
 	a.bindPure(penv, callee, fc, args)
@@ -757,6 +752,9 @@ func (a *Act) callByContract(st *State, callee *ssa.Function, fc *FuncContract, 
 			u.Trusted["trusted clause of "+strings.TrimPrefix(key, ModulePath+"/")+": "+cl.Src] = true
 		}
 		st.assume(a.evalClause(qenv, cl))
+	}
+	for _, l := range links {
+		a.linkPureValue(st, l.fv, l.fn)
 	}
 	if u.smokeOn && !a.spec {
 		o := u.Oblige("smoke", "call:"+fnName(callee), a.pos(pos), "state after call is consistent", st.guard, "false", nil)
